@@ -534,7 +534,11 @@ Definition spec_expect (l : spec) (o : rop) : option robs :=
       | Some o => Some (RoReg (oref o))
       | None => None
       end
-  | ORandN f st ranges => Some (RoRandSet true (map ref_of (flat_map (fun se => spec_rand_cands l f st (fst se) (snd se)) ranges)))
+  | ORandN f st ranges =>
+      (* the candidates implied by the current regions; a nil answer is admissible only if every range of the list has no
+         candidate interval or an index in its interval whose region is not involved (RandomRegion tries every range of the
+         list, in random order, and gives up on a range only for these two reasons) *)
+      let '(n, c) := random_many (RT (spec_fam l f st) 0) ranges in Some (RoRandSet n (map ref_of c))
   end.
 
 Definition sig_of (o : rop) : string :=
